@@ -383,7 +383,13 @@ def run_case(case, repo_checks=True):
             svc.objects[(SRC_BUCKET, _srckey(i))] = data
             cs = {'Bucket': SRC_BUCKET, 'Key': _srckey(i)}
             if t.get('version'):
+                # the copy names an OLDER version; the latest one differs in
+                # content and length
                 cs['VersionId'] = 'v1'
+                svc.versions[(SRC_BUCKET, _srckey(i))] = {'v1': data}
+                if not t.get('virtual'):
+                    svc.objects[(SRC_BUCKET, _srckey(i))] = pattern_bytes(
+                        size + 1, salt + 29)
             rec['copy_source'] = cs
             rec['sizehint'] = size
         elif t['type'] == 'delete':
